@@ -54,10 +54,18 @@ def corpus_walks(name):
 def search(ctx, info, sysd, broken, log, n, steps):
     """differential execution of the two regenerated models on the corpus walks and on random walks; a
     distinguishing (state, choices) of a label is reported as a failure with the walk as replay"""
-    cw = corpus_walks(sysd["name"])
-    rnds = [c["rnd"][:8 + 7 * steps] + [0] * max(0, 8 + 7 * steps - len(c["rnd"])) for c in cw] + rnd_lists(ctx.rng, n, steps)
     focus = [".".join(b.split(".")[1:]) for b in sorted(broken)]       # "process.label"
-    mm, cover, err = G.run_walks(info, rnds, steps, log, focus)
+    mm, cover, err = [], {}, None
+    groups = {}
+    for c in corpus_walks(sysd["name"]):       # stored walks first, each with the step bound / focus it was found with
+        groups.setdefault((c["steps"], tuple(c.get("focus", []))), []).append(c["rnd"])
+    groups.setdefault((steps, tuple(focus)), []).extend(rnd_lists(ctx.rng, n, steps))
+    for (st_, fo_), rnds in groups.items():
+        m1, c1, e1 = G.run_walks(info, rnds, st_, log, list(fo_))
+        mm += m1
+        for k, v in c1.items():
+            cover[k] = cover.get(k, 0) + v
+        err = err or e1
     if err:
         ctx.notes.append("differential walk of %s: %s" % (sysd["name"], err[:300]))
     seen = set()
@@ -73,7 +81,7 @@ def search(ctx, info, sysd, broken, log, n, steps):
             "signature": "step-differs:" + lid,
             "what": "the generated Go of %s takes a different step than the TLA+ action from a reachable state%s" % (
                 lid, " (its obligation no longer checks)" if lid in broken else ""),
-            "case": {"system": sysd["name"], "go": sysd["go"], "tla": sysd["tla"], "rnd": m["rnd"], "steps": m["steps"],
+            "case": {"system": sysd["name"], "go": sysd["go"], "tla": sysd["tla"], "rnd": m["rnd"], "steps": m["steps"], "focus": m.get("focus", []),
                      "process": m.get("process"), "label": m.get("label"), "self": m.get("self"), "schedule": m.get("sched"),
                      "choices": m.get("choices"), "pre_state": m.get("state")},
             "obs": {"go_model": m.get("go"), "real_go": real},
@@ -138,8 +146,9 @@ def run(ctx):
                                        "detail": why, "case": {"label": l["id"], "go": sysd["go"], "tla": sysd["tla"]}})
         walkable = not info["errors"] and any("g" in l for l in info["labels"])
         if ctx.replay and walkable and case.get("rnd"):
-            mm, cover, err = G.run_walks(info, [case["rnd"]], case.get("steps", 100), log)
-            print("replay:", json.dumps(mm[0] if mm else {"result": "no difference on this walk", "error": err}, indent=1)[:6000])
+            mm, cover, err = G.run_walks(info, [case["rnd"]], case.get("steps", 100), log, case.get("focus", []))
+            shown = [{k: v for k, v in m.items() if k not in ("rnd", "sched")} for m in mm]
+            print("replay:", json.dumps(shown if shown else {"result": "no difference on this walk", "error": err}, indent=1)[:8000])
             for m in mm:
                 ctx.failures.append({"signature": "step-differs:%s.%s.%s" % (sysd["name"], m.get("process"), m.get("label")),
                                      "what": "replayed walk still distinguishes the two models", "case": case, "obs": m.get("go"), "exp": m.get("tla")})
